@@ -111,6 +111,21 @@ def timing_histories(rng, thorough):
             for _ in range(4 * nm):
                 sc += [("nextdue", 0), ("answer", "fifo")]
             mk("M", ms, oc, sc)
+        # one channel saturated (every slot busy, so its pass over the last message stays open) while a deferred message waits on
+        # the other channel: the daemon's sleep must still end at that retry time (nothing else will wake it)
+        for v in range(2):
+            i = len(hs)
+            busy, other = (b"local.test", b"remote.test") if v == 0 else (b"remote.test", b"local.test")
+            w = b"t%dw@%s" % (i, other)
+            ms, oc = [msg(i, 0, [w])], {w.decode(): "ZZK", "ts%d@origin.test" % i: "K"}
+            sc = [("inject", 0), ("answer", "fifo"), ("advance", 5)]
+            for k in (1, 2):
+                a = b"t%db%d@%s" % (i, k, busy)
+                ms.append(msg(i, k, [a]))
+                oc[a.decode()] = "K"
+                sc += [("inject", k)]
+            sc += [("answer", "fifo"), ("nextdue", 0), ("answer", "fifo"), ("nextdue", 0), ("answer", "fifo")]
+            mk("P", ms, oc, sc, conc=(2, 20) if v == 0 else (10, 2))
     return hs
 
 
